@@ -11,21 +11,23 @@
    that the explicit Panic results of the model are unreachable from [format_res]:
      (1) every dereference of an optional child ([deref site o], Panic when o = None) sits
          behind its guard ([non_nil o]).  The guarded sites, as in the Go source:
-           VisitPaddingAttribute          PADDING_CHAR            formattor.go:185
-           VisitFieldDefinition           ObjectField fname       formattor.go:232
-           VisitFieldDefinition           ObjectField STRING_LITERAL  formattor.go:235
-           VisitLengthFieldDeclaration    STRING_LITERAL          formattor.go:312
-           VisitCheckSumFieldDeclaration  STRING_LITERAL          formattor.go:326
-           VisitMetaDataDeclaration       STRING_LITERAL          formattor.go:346
-           VisitRefMetaDataDeclaration    STRING_LITERAL          formattor.go:363
-           getHiddenLeft / getHiddenRightAtSameLine   token == nil (GetStop() of an empty
-                                          program)                formattor.go:45, 67
-         (optional children that are only TESTED, never dereferenced: ROOT :125, REPEAT :228
-         :247 :268, SEMICOLON :214, the type of a length / checksum field :316 :330);
+           VisitPaddingAttribute          PADDING_CHAR            formattor.go:219
+           VisitFieldDefinition           ObjectField fname       formattor.go:267
+           VisitFieldDefinition           ObjectField STRING_LITERAL  formattor.go:270
+           VisitLengthFieldDeclaration    STRING_LITERAL          formattor.go:355
+           VisitCheckSumFieldDeclaration  STRING_LITERAL          formattor.go:369
+           VisitMetaDataDeclaration       STRING_LITERAL          formattor.go:389
+           VisitRefMetaDataDeclaration    STRING_LITERAL          formattor.go:406
+           getHiddenLeft / getHiddenRightAtSameLine / getHiddenRight   token == nil (GetStop() of an
+                                          empty program)          formattor.go:45, 67, 93
+         (optional children that are only TESTED, never dereferenced: ROOT :157, REPEAT :263
+         :282 :303, SEMICOLON :249, the type of a length / checksum field :359 :373);
      (2) ANTLR's GetHiddenTokensToLeft/Right panic on a token index outside the token
          list; every token the formatter passes is a start/stop token of a rule context
-         of the tree, and [parse] only puts tokens of the list into the tree
-         ([parse_ok], an invariant proved through all rules of the parser model).
+         of the tree (packet, the three definitions, option declarations, field
+         definitions, field attributes, nested object declarations, match declarations and
+         pairs, the entries of a MetaData block), and [parse] only puts tokens of the list
+         into the tree ([parse_ok], an invariant proved through all rules of the parser model).
    Removing a guard from the model (or from the Go code, which the correspondence check
    would then force into the model) makes [safe_*] below fail. *)
 From FP Require Import Formatter.
@@ -79,35 +81,58 @@ Qed.
 Lemma safe_get_hidden_right_nil ts : safe (get_hidden_right ts None).
 Proof. intro sn. exists EmptyString, sn. reflexivity. Qed.
 
+Lemma safe_get_hidden_right_all ts k : p_idx k < length ts -> safe (get_hidden_right_all ts (Some k)).
+Proof.
+  intros Hk sn. unfold get_hidden_right_all, hidden_right.
+  destruct (Nat.ltb_spec (p_idx k) (length ts)) as [_|Hge]; [|lia].
+  destruct (right_all_loop _ sn) as [s sn'] eqn:E. exists s, sn'. reflexivity.
+Qed.
+
+Lemma safe_get_hidden_right_all_nil ts : safe (get_hidden_right_all ts None).
+Proof. intro sn. exists EmptyString, sn. reflexivity. Qed.
+
+Lemma safe_get_hidden_before_close ts k : p_idx k < length ts -> safe (get_hidden_before_close ts (Some k)).
+Proof.
+  intro Hk. unfold get_hidden_before_close. apply safe_bind; [apply safe_get_hidden_left; exact Hk|intro c; apply safe_ret].
+Qed.
+
 (* ------------------------------------------------------------------ index checker *)
 Definition inr (n : nat) (k : ptok) : bool := Nat.ltb (p_idx k) n.
 Definition span_ok (n : nat) (sp : span) : bool := inr n (sp_start sp) && inr n (sp_stop sp).
 
 (* the items of a key list are DIGITS or STRING tokens (the formatter prints the items of these
-   two types only, formattor.go:393-400) *)
+   two types only, formattor.go:431-440) *)
 Definition item_ok (k : ptok) : bool := Nat.eqb (p_type k) T_DIGITS || Nat.eqb (p_type k) T_STRING.
 Definition key_list_ok (l : key_list) : bool := item_ok (li_first l) && forallb (fun p => item_ok (snd p)) (li_rest l).
 Definition key_ok (k : match_key) : bool := match k with MKList l => key_list_ok l | _ => true end.
 
 Definition ok_match_pair (n : nat) (p : match_pair) : bool := span_ok n (mp_span p) && key_ok (mp_key p).
 
+Definition ok_match_decl (n : nat) (d : match_field_decl) : bool :=
+  span_ok n (mf_span d) && forallb (ok_match_pair n) (mf_pairs d).
+
 Fixpoint ok_field_def (n : nat) (f : field_def) : bool :=
   span_ok n (fd_span f) &&
   match f with
-  | InerObjectField _ _ (InerObjectDecl _ _ _ fs _) _ => forallb (ok_field_def n) fs
-  | MatchField _ d _ => forallb (ok_match_pair n) (mf_pairs d)
+  | InerObjectField _ _ (InerObjectDecl isp _ _ fs _) _ => span_ok n isp && forallb (ok_field_def n) fs
+  | MatchField _ d _ => ok_match_decl n d
   | _ => true
   end.
 
+Definition ok_field_with_attr (n : nat) (f : field_with_attr) : bool :=
+  forallb (fun a => span_ok n (fa_span a)) (fw_attrs f) && ok_field_def n (fw_def f).
+
 Definition ok_packet_def (n : nat) (d : packet_def) : bool :=
-  span_ok n (pd_span d) && forallb (fun f => ok_field_def n (fw_def f)) (pd_fields d).
+  span_ok n (pd_span d) && forallb (ok_field_with_attr n) (pd_fields d).
+Definition ok_meta_def (n : nat) (d : meta_def) : bool :=
+  span_ok n (me_span d) && forallb (fun i => span_ok n (meta_item_span i)) (me_items d).
 Definition ok_option_decl (n : nat) (d : option_decl) : bool := span_ok n (od_span d).
 Definition ok_option_def (n : nat) (d : option_def) : bool :=
   span_ok n (op_span d) && forallb (ok_option_decl n) (op_decls d).
 Definition ok_definition (n : nat) (d : definition) : bool :=
   match d with
   | DPacket x => ok_packet_def n x
-  | DMeta _ => true
+  | DMeta x => ok_meta_def n x
   | DOption x => ok_option_def n x
   end.
 Definition ok_pt (n : nat) (t : pt) : bool :=
@@ -158,10 +183,13 @@ Qed.
 Lemma safe_visit_field_attribute a : safe (visit_field_attribute a).
 Proof. destruct a; cbn [visit_field_attribute]; try apply safe_ret. apply safe_visit_padding_attr. Qed.
 
-Lemma safe_visit_field_attributes l : safe (visit_field_attributes l).
+Lemma safe_visit_field_attributes ts l :
+  forallb (fun a => span_ok (length ts) (fa_span a)) l = true -> safe (visit_field_attributes ts l).
 Proof.
-  induction l as [|a r IH]; cbn [visit_field_attributes]; [apply safe_ret|].
-  apply safe_bind; [apply safe_visit_field_attribute|intro]. apply safe_bind; [exact IH|intro; apply safe_ret].
+  induction l as [|a r IH]; cbn [visit_field_attributes forallb]; intro H; [apply safe_ret|].
+  apply andb_true_iff in H. destruct H as [Ha Hr]. apply span_ok_lt in Ha. destruct Ha as [H1 _].
+  apply safe_bind; [apply safe_get_hidden_left; exact H1|intro].
+  apply safe_bind; [apply safe_visit_field_attribute|intro]. apply safe_bind; [apply IH; exact Hr|intro; apply safe_ret].
 Qed.
 
 Lemma safe_visit_length_field_decl d : safe (visit_length_field_decl d).
@@ -204,9 +232,11 @@ Proof.
 Qed.
 
 Lemma safe_visit_match_field_decl ts d :
-  forallb (ok_match_pair (length ts)) (mf_pairs d) = true -> safe (visit_match_field_decl ts d).
+  ok_match_decl (length ts) d = true -> safe (visit_match_field_decl ts d).
 Proof.
-  intro H. unfold visit_match_field_decl. apply safe_bind; [apply safe_visit_match_pairs; exact H|intro; apply safe_ret].
+  unfold ok_match_decl. intro H. apply andb_true_iff in H. destruct H as [Hsp H]. apply span_ok_lt in Hsp. destruct Hsp as [_ H2].
+  unfold visit_match_field_decl. apply safe_bind; [apply safe_visit_match_pairs; exact H|intro].
+  apply safe_bind; [apply safe_get_hidden_before_close; exact H2|intro; apply safe_ret].
 Qed.
 
 (* the two mutually recursive functions, unfolded once *)
@@ -252,7 +282,8 @@ Fixpoint visit_field_defs (ts : list tok) (fs : list field_def) : M string :=
 Lemma visit_iner_object_field_eq ts rep sp name open fields close :
   visit_iner_object_field ts rep (InerObjectDecl sp name open fields close) =
   (do body <- visit_field_defs ts fields;
-   ret (((if non_nil rep then "repeat " else EmptyString) ++ p_text name ++ " " ++ "{" ++ nl) ++ body ++ "},")).
+   do close <- get_hidden_before_close ts (Some (sp_stop sp));
+   ret (((if non_nil rep then "repeat " else EmptyString) ++ p_text name ++ " " ++ "{" ++ nl) ++ body ++ close ++ "},")).
 Proof.
   cbn [visit_iner_object_field]. f_equal.
   induction fields as [|f r IH]; [reflexivity|]. cbn [visit_field_defs]. rewrite <- IH. reflexivity.
@@ -266,8 +297,10 @@ Proof.
     (apply safe_bind; [apply safe_get_hidden_left; exact H1|intro left]);
     (apply safe_bind; [|intro body; apply safe_bind; [apply safe_get_hidden_right; exact H2|intro; apply safe_ret]]);
     cbn [field_body].
-  - rewrite visit_iner_object_field_eq. apply safe_bind; [|intro; apply safe_ret].
-    clear H1 H2. induction fields as [|f r IHr]; cbn [visit_field_defs]; [apply safe_ret|].
+  - apply andb_true_iff in Hin. destruct Hin as [Hisp Hin]. apply span_ok_lt in Hisp. destruct Hisp as [_ Hc].
+    rewrite visit_iner_object_field_eq.
+    apply safe_bind; [|intro; apply safe_bind; [apply safe_get_hidden_before_close; exact Hc|intro; apply safe_ret]].
+    clear H1 H2 Hc. induction fields as [|f r IHr]; cbn [visit_field_defs]; [apply safe_ret|].
     cbn [forallb] in Hin. apply andb_true_iff in Hin. destruct Hin as [Hf Hr].
     inversion IH as [|x l Hx Hl]; subst.
     apply safe_bind; [apply Hx; exact Hf|intro]. apply safe_bind; [apply IHr; assumption|intro; apply safe_ret].
@@ -279,14 +312,15 @@ Proof.
   - apply safe_bind; [apply safe_visit_match_field_decl; exact Hin|intro; apply safe_ret].
 Qed.
 
-Lemma safe_visit_field_with_attr ts f : ok_field_def (length ts) (fw_def f) = true -> safe (visit_field_with_attr ts f).
+Lemma safe_visit_field_with_attr ts f : ok_field_with_attr (length ts) f = true -> safe (visit_field_with_attr ts f).
 Proof.
-  intro H. unfold visit_field_with_attr. apply safe_bind; [apply safe_visit_field_attributes|intro].
+  unfold ok_field_with_attr. intro H. apply andb_true_iff in H. destruct H as [Ha H].
+  unfold visit_field_with_attr. apply safe_bind; [apply safe_visit_field_attributes; exact Ha|intro].
   apply safe_bind; [apply safe_visit_field_def; exact H|intro; apply safe_ret].
 Qed.
 
 Lemma safe_visit_fields_with_attr ts fs :
-  forallb (fun f => ok_field_def (length ts) (fw_def f)) fs = true -> safe (visit_fields_with_attr ts fs).
+  forallb (ok_field_with_attr (length ts)) fs = true -> safe (visit_fields_with_attr ts fs).
 Proof.
   induction fs as [|f r IH]; cbn [visit_fields_with_attr forallb]; intro H; [apply safe_ret|].
   apply andb_true_iff in H. destruct H as [Hf Hr].
@@ -298,6 +332,7 @@ Proof.
   unfold ok_packet_def. intro H. apply andb_true_iff in H. destruct H as [Hsp Hf]. apply span_ok_lt in Hsp. destruct Hsp as [H1 H2].
   unfold visit_packet_def. apply safe_bind; [apply safe_get_hidden_left; exact H1|intro].
   apply safe_bind; [apply safe_visit_fields_with_attr; exact Hf|intro].
+  apply safe_bind; [apply safe_get_hidden_before_close; exact H2|intro].
   apply safe_bind; [apply safe_get_hidden_right; exact H2|intro; apply safe_ret].
 Qed.
 
@@ -320,18 +355,29 @@ Proof.
   unfold ok_option_def. intro H. apply andb_true_iff in H. destruct H as [Hsp Hd]. apply span_ok_lt in Hsp. destruct Hsp as [H1 H2].
   unfold visit_option_def. apply safe_bind; [apply safe_get_hidden_left; exact H1|intro].
   apply safe_bind; [apply safe_visit_option_decls; exact Hd|intro].
+  apply safe_bind; [apply safe_get_hidden_before_close; exact H2|intro].
   apply safe_bind; [apply safe_get_hidden_right; exact H2|intro; apply safe_ret].
 Qed.
 
-Lemma safe_visit_meta_items items : safe (visit_meta_items items).
+Lemma safe_visit_meta_items ts items :
+  forallb (fun i => span_ok (length ts) (meta_item_span i)) items = true -> safe (visit_meta_items ts items).
 Proof.
-  induction items as [|i r IH]; cbn [visit_meta_items]; [apply safe_ret|].
+  induction items as [|i r IH]; cbn [visit_meta_items forallb]; intro H; [apply safe_ret|].
+  apply andb_true_iff in H. destruct H as [Hi Hr]. apply span_ok_lt in Hi. destruct Hi as [H1 H2].
+  apply safe_bind; [apply safe_get_hidden_left; exact H1|intro].
   apply safe_bind; [destruct i; [apply safe_visit_meta_decl|apply safe_visit_ref_meta_decl]|intro].
-  apply safe_bind; [exact IH|intro; apply safe_ret].
+  apply safe_bind; [apply safe_get_hidden_right; exact H2|intro].
+  apply safe_bind; [apply IH; exact Hr|intro; apply safe_ret].
 Qed.
 
-Lemma safe_visit_meta_def d : safe (visit_meta_def d).
-Proof. unfold visit_meta_def. apply safe_bind; [apply safe_visit_meta_items|intro; apply safe_ret]. Qed.
+Lemma safe_visit_meta_def ts d : ok_meta_def (length ts) d = true -> safe (visit_meta_def ts d).
+Proof.
+  unfold ok_meta_def. intro H. apply andb_true_iff in H. destruct H as [Hsp Hi]. apply span_ok_lt in Hsp. destruct Hsp as [H1 H2].
+  unfold visit_meta_def. apply safe_bind; [apply safe_get_hidden_left; exact H1|intro].
+  apply safe_bind; [apply safe_visit_meta_items; exact Hi|intro].
+  apply safe_bind; [apply safe_get_hidden_before_close; exact H2|intro].
+  apply safe_bind; [apply safe_get_hidden_right; exact H2|intro; apply safe_ret].
+Qed.
 
 Lemma safe_visit_definitions ts ds : forallb (ok_definition (length ts)) ds = true -> safe (visit_definitions ts ds).
 Proof.
@@ -339,7 +385,7 @@ Proof.
   apply andb_true_iff in H. destruct H as [Hd Hr].
   apply safe_bind; [|intro; apply safe_bind; [apply IH; exact Hr|intro; apply safe_ret]].
   destruct d as [x|x|x]; cbn [ok_definition] in Hd;
-    [apply safe_visit_packet_def; exact Hd|apply safe_visit_meta_def|apply safe_visit_option_def; exact Hd].
+    [apply safe_visit_packet_def; exact Hd|apply safe_visit_meta_def; exact Hd|apply safe_visit_option_def; exact Hd].
 Qed.
 
 Lemma safe_visit_packet ts t : ok_pt (length ts) t = true -> safe (visit_packet ts t).
@@ -347,14 +393,17 @@ Proof.
   unfold ok_pt. intro H. apply andb_true_iff in H. destruct H as [H Hd]. apply andb_true_iff in H. destruct H as [H1 H2].
   unfold visit_packet. apply safe_bind; [apply safe_get_hidden_left; apply inr_lt; exact H1|intro].
   apply safe_bind; [apply safe_visit_definitions; exact Hd|intro].
-  apply safe_bind; [|intro; apply safe_ret].
-  destruct (pk_stop t) as [k|]; [apply safe_get_hidden_right; apply inr_lt; exact H2|apply safe_get_hidden_right_nil].
+  destruct (pk_stop t) as [k|].
+  - apply safe_bind; [apply safe_get_hidden_right; apply inr_lt; exact H2|intro].
+    apply safe_bind; [apply safe_get_hidden_right_all; apply inr_lt; exact H2|intro; apply safe_ret].
+  - apply safe_bind; [apply safe_get_hidden_right_nil|intro].
+    apply safe_bind; [apply safe_get_hidden_right_all_nil|intro; apply safe_ret].
 Qed.
 
 Theorem fmt_pt_res_no_panic ts t : ok_pt (length ts) t = true -> exists s, fmt_pt_res ts t = Ok s.
 Proof.
   intro H. destruct (safe_visit_packet ts t H []) as [s [sn E]]. unfold fmt_pt_res. rewrite E.
-  exists (trim_space s). reflexivity.
+  exists (trim_right_nl s). reflexivity.
 Qed.
 
 (* ------------------------------------------------------------------ the parser only puts tokens of the list into the tree *)
@@ -490,16 +539,29 @@ Section ParserInvariant.
   Lemma r_tag_attr_pres : pres any r_tag_attr.
   Proof. simple_rule r_tag_attr. Qed.
 
-  Lemma r_field_attribute_pres : pres any r_field_attribute.
+  Definition Qattr (a : field_attribute) : Prop := span_ok n (fa_span a) = true.
+
+  Lemma r_field_attribute_pres : pres Qattr r_field_attribute.
   Proof.
     pose proof r_calculated_from_pres. pose proof r_length_of_pres. pose proof r_padding_attr_pres. pose proof r_tag_attr_pres.
-    simple_rule r_field_attribute.
+    intros s x s' Hs Hrun. unfold r_field_attribute in Hrun. steps Hrun; ok_chain;
+      (split; [assumption|unfold Qattr; cbn [fa_span]; apply span_of_ok; assumption]).
   Qed.
 
-  Lemma r_meta_decl_pres : pres any r_meta_decl.
-  Proof. pose proof r_type_pres. simple_rule r_meta_decl. Qed.
-  Lemma r_ref_meta_decl_pres : pres any r_ref_meta_decl.
-  Proof. simple_rule r_ref_meta_decl. Qed.
+  Definition Qmd (d : meta_decl) : Prop := span_ok n (md_span d) = true.
+  Definition Qrm (d : ref_meta_decl) : Prop := span_ok n (rm_span d) = true.
+
+  Lemma r_meta_decl_pres : pres Qmd r_meta_decl.
+  Proof.
+    pose proof r_type_pres.
+    intros s x s' Hs Hrun. unfold r_meta_decl in Hrun. steps Hrun; ok_chain;
+      (split; [assumption|unfold Qmd; cbn [md_span]; apply span_of_ok; assumption]).
+  Qed.
+  Lemma r_ref_meta_decl_pres : pres Qrm r_ref_meta_decl.
+  Proof.
+    intros s x s' Hs Hrun. unfold r_ref_meta_decl in Hrun. steps Hrun; ok_chain;
+      (split; [assumption|unfold Qrm; cbn [rm_span]; apply span_of_ok; assumption]).
+  Qed.
   Lemma r_length_field_decl_pres : pres any r_length_field_decl.
   Proof. pose proof r_opt_type_pres. pose proof r_length_of_pres. simple_rule r_length_field_decl. Qed.
   Lemma r_checksum_field_decl_pres : pres any r_checksum_field_decl.
@@ -549,13 +611,14 @@ Section ParserInvariant.
                           [apply span_of_ok; assumption|cbn [key_ok]; try reflexivity; assumption]]).
   Qed.
 
-  Definition Qmatch (d : match_field_decl) : Prop := forallb (ok_match_pair n) (mf_pairs d) = true.
+  Definition Qmatch (d : match_field_decl) : Prop := ok_match_decl n d = true.
 
   Lemma r_match_field_decl_pres fuel : pres Qmatch (r_match_field_decl fuel).
   Proof.
     pose proof (many1_pres Qpair fuel match_pair_first (r_match_pair fuel) (r_match_pair_pres fuel)).
     intros s x s' Hs Hrun. unfold r_match_field_decl in Hrun. steps Hrun. ok_chain.
-    split; [assumption|]. unfold Qmatch. cbn [mf_pairs]. apply Forall_forallb. assumption.
+    split; [assumption|]. unfold Qmatch, ok_match_decl. cbn [mf_span mf_pairs].
+    apply andb_true_iff. split; [apply span_of_ok; assumption|apply Forall_forallb; assumption].
   Qed.
 
   Definition Qfd (f : field_def) : Prop := ok_field_def n f = true.
@@ -568,17 +631,17 @@ Section ParserInvariant.
     pose proof (r_match_field_decl_pres f).
     steps Hrun; ok_chain; (split; [assumption|]); unfold Qfd; cbn [ok_field_def fd_span];
       (apply andb_true_iff; split; [apply span_of_ok; assumption|]); try reflexivity.
-    all: try (apply Forall_forallb; assumption); try assumption.
+    all: try (apply andb_true_iff; split; [apply span_of_ok; assumption|]); try (apply Forall_forallb; assumption); try assumption.
   Qed.
 
-  Definition Qfw (f : field_with_attr) : Prop := ok_field_def n (fw_def f) = true.
+  Definition Qfw (f : field_with_attr) : Prop := ok_field_with_attr n f = true.
 
   Lemma r_field_with_attr_pres fuel : pres Qfw (r_field_with_attr fuel).
   Proof.
-    pose proof (many_pres any fuel attr_first r_field_attribute r_field_attribute_pres).
+    pose proof (many_pres Qattr fuel attr_first r_field_attribute r_field_attribute_pres).
     pose proof (r_field_def_pres fuel).
     intros s x s' Hs Hrun. unfold r_field_with_attr in Hrun. steps Hrun. ok_chain. split; [assumption|].
-    unfold Qfw. cbn [fw_def]. assumption.
+    unfold Qfw, ok_field_with_attr. cbn [fw_attrs fw_def]. apply andb_true_iff. split; [apply Forall_forallb; assumption|assumption].
   Qed.
 
   Definition Qpd (d : packet_def) : Prop := ok_packet_def n d = true.
@@ -591,13 +654,23 @@ Section ParserInvariant.
       (apply andb_true_iff; split; [apply span_of_ok; assumption|apply Forall_forallb; assumption]).
   Qed.
 
-  Lemma r_meta_item_pres : pres any r_meta_item.
-  Proof. pose proof r_meta_decl_pres. pose proof r_ref_meta_decl_pres. simple_rule r_meta_item. Qed.
+  Definition Qmi (i : meta_item) : Prop := span_ok n (meta_item_span i) = true.
 
-  Lemma r_meta_def_pres fuel : pres any (r_meta_def fuel).
+  Lemma r_meta_item_pres : pres Qmi r_meta_item.
   Proof.
-    pose proof (many_pres any fuel meta_item_first r_meta_item r_meta_item_pres).
-    intros s x s' Hs Hrun. unfold r_meta_def in Hrun. steps Hrun. ok_chain. split; [assumption|exact I].
+    pose proof r_meta_decl_pres. pose proof r_ref_meta_decl_pres.
+    intros s x s' Hs Hrun. unfold r_meta_item in Hrun. steps Hrun; ok_chain; (split; [assumption|]);
+      unfold Qmi; cbn [meta_item_span]; assumption.
+  Qed.
+
+  Definition Qmeta (d : meta_def) : Prop := ok_meta_def n d = true.
+
+  Lemma r_meta_def_pres fuel : pres Qmeta (r_meta_def fuel).
+  Proof.
+    pose proof (many_pres Qmi fuel meta_item_first r_meta_item r_meta_item_pres).
+    intros s x s' Hs Hrun. unfold r_meta_def in Hrun. steps Hrun. ok_chain. split; [assumption|].
+    unfold Qmeta, ok_meta_def. cbn [me_span me_items].
+    apply andb_true_iff; split; [apply span_of_ok; assumption|apply Forall_forallb; assumption].
   Qed.
 
   Definition Qod (d : option_decl) : Prop := ok_option_decl n d = true.
@@ -625,7 +698,7 @@ Section ParserInvariant.
   Proof.
     pose proof (r_packet_def_pres fuel). pose proof (r_meta_def_pres fuel). pose proof (r_option_def_pres fuel).
     intros s x s' Hs Hrun. unfold r_definition in Hrun. steps Hrun; ok_chain; (split; [assumption|]);
-      unfold Qdef; cbn [ok_definition]; try assumption; reflexivity.
+      unfold Qdef; cbn [ok_definition]; assumption.
   Qed.
 
   Lemma r_packet_ok fuel s t s' : st_ok s -> r_packet fuel s = Some (t, s') -> ok_pt n t = true.
